@@ -26,7 +26,7 @@ ASSUMPTIONS = [
 EVAL = ['cases']
 DISTINCT = ['config', 'tiny_outcome', 'reuse_step', 'server_reuse_step']
 REQUIRED = ['cases', 'sessions_completed', 'sessions_with_mfl', 'sessions_without_mfl', 'cmp_client_request', 'cmp_negotiated_flag',
-            'records_measured', 'forged_max_records', 'forged_fit_records', 'forged_oversize_records', 'mitm_rewrite_applied',
+            'records_measured', 'forged_max_records', 'forged_empty_records', 'forged_fit_records', 'forged_oversize_records', 'mitm_rewrite_applied',
             'mitm_delete_applied', 'server_used_full_fragment', 'tiny_refused', 'tiny_streams_exact', 'small_server_sessions', 'reuse_flag_matches', 'server_reuse_ok',
             'session_mfl_steps_ok', 'session_mfl_resumed', 'huge_buffer_cases', 'asymmetric_buffer_cases']
 NW = 16
